@@ -552,6 +552,27 @@ def every_line_visited(ctx, res, rule):
             return d["ord(%s, %s)" % (a, b_)]
         v = d.get("ord(%s, %s)" % (b_, a))
         return {"<": ">", ">": "<", "=": "="}.get(v)
+    def _two_terms(k):
+        m_ = re.match(r"^ord\((.*)\)$", k)
+        if not m_:
+            return False
+        depth = 0
+        for i_, ch in enumerate(m_.group(1)):
+            depth += ch in "([{"
+            depth -= ch in ")]}"
+            if ch == "," and depth == 0:
+                return m_.group(1)[:i_].strip() != m_.group(1)[i_ + 1:].strip()
+        return False
+    # the two amounts: the tag's own indentation (measured by a pausing backward scan from the start of the block) and the
+    # common shift (a saturating difference)
+    ofs_name = len_name = None
+    for s_ in T.nodes(b["tree"], "let"):
+        if s_["pat"].get("p") == "bind" and s_.get("init") is not None:
+            r_ = T.render(s_["init"])
+            if "find_prev_line_break_pos(" in r_ and ps[2] in r_:
+                ofs_name = s_["pat"]["name"]
+            if ".saturating_sub(" in r_:
+                len_name = s_["pat"]["name"]
     n = 0
     for o in outs:
         d = o["decisions"]
@@ -575,8 +596,25 @@ def every_line_visited(ctx, res, rule):
                 bad = "goes on although the current line start is not inside the block / no further line break was found / the next line starts behind the end of the block"
             elif asg != [nxt]:
                 bad = "continues at %s, not at the start of the next line `%s`" % (asg, nxt)
-            elif d.get("is_some(find_next_char_pos(content, bytes, %s))" % cur) is True and not pushes and not any(v == "=" for k, v in d.items() if k.startswith("ord(")):
+            elif d.get("is_some(find_next_char_pos(content, bytes, %s))" % cur) is True and not pushes and not any(v == "=" for k, v in d.items() if k.startswith("ord(")) and not any(e[0] == "same" for e in o["effects"]):
                 bad = "leaves a line with a non-blank character without a range although no two candidate endpoints coincide"
+            elif pushes and ofs_name and len_name:
+                got = [A.show(e[2]) for e in pushes]
+
+                def shaped(g_):
+                    # A = (<line start> + OFS), N = find_next_char_pos(.., <line start>).some; A..(A + L) | A..N | N..(N + L) | N..N
+                    m_ = re.search(r"find_next_char_pos\([^()]*(?:\([^()]*\))?[^()]*, (\w+)\)\.some", g_)
+                    ls_ = [m_.group(1)] if m_ else re.findall(r"\((\w+) \+ %s\)" % re.escape(ofs_name), g_)[:1]
+                    if not ls_:
+                        return False
+                    a_ = "(%s + %s)" % (ls_[0], ofs_name)
+                    nbs = set(re.findall(r"find_next_char_pos\((?:[^()]|\([^()]*\))*, %s\)\.some" % re.escape(ls_[0]), g_)) or {"<none>"}
+                    if len(nbs) != 1:
+                        return False
+                    nb = list(nbs)[0]
+                    return g_ in {"%s..(%s + %s)" % (a_, a_, len_name), "%s..%s" % (a_, nb), "%s..(%s + %s)" % (nb, nb, len_name), "%s..%s" % (nb, nb)}
+                if any(not shaped(g_) for g_ in got):
+                    bad = "takes the range %s from a line; a line gives up `line start + indentation of the tag` .. `+ the common shift`, each clamped to its first non-blank" % got
         else:
             bad = "leaves the walk by `%s`" % o["exit"]
         if bad:
@@ -585,6 +623,8 @@ def every_line_visited(ctx, res, rule):
             n += 1
             res.holds(rule, fn, "line-walk:" + label)
     res.floor(rule, "paths of one step of the line walk", n, 10)
+    n_push = sum(1 for o in outs if any(e[0] == "push" for e in o["effects"]))
+    res.floor(rule, "paths of the line walk on which a line gives up a range", n_push, 1)
 
 
 
